@@ -164,10 +164,10 @@ func Check(c Case) ([]evid.Violation, info) {
 	if res.Rec.Code != 200 {
 		return []evid.Violation{evid.V("status", fmt.Sprintf("status-%d", res.Rec.Code), "status %d body %q (route %s Accept %q Content-Type %q)", res.Rec.Code, res.Rec.Body.String(), c.Route, c.Accept, c.ContentType)}, in
 	}
-	ct := res.Rec.Header().Get("Content-Type")
+	ct := res.Hdr.Get("Content-Type")
 	payload := res.Rec.Body.Bytes()
 	// (d) Content-Encoding truthfulness
-	switch ce := res.Rec.Header().Get("Content-Encoding"); ce {
+	switch ce := res.Hdr.Get("Content-Encoding"); ce {
 	case "", "identity":
 	case "gzip":
 		zr, err := gzip.NewReader(bytes.NewReader(payload))
